@@ -617,7 +617,11 @@ func checkC14(c *vh.Ctx) {
 	c.Res.Rule = "kernel: commandlineOverride / readConfig on generated subsets of the " + strconv.Itoa(len(metas)) + " keys on the line and/or in config.yml (all kinds, all on/off spellings, enumeration names, unparsable numbers, repeated keys, unknown and case-variant keys, malformed tokens, random order, permutations, no file); runs: whole simulations with observable keys given on the line / in the file / nowhere; a case is non-trivial when it is a distinct (stage, kind, layer that decides, class of the value)"
 	var cases, impl []string
 	var descr []interface{}
-	add := func(cs, im string, d interface{}) { cases = append(cases, cs); impl = append(impl, im); descr = append(descr, d) }
+	add := func(cs, im string, d interface{}) {
+		cases = append(cases, cs)
+		impl = append(impl, im)
+		descr = append(descr, d)
+	}
 	flush := func(kernel string) {
 		d := descr
 		c.Correspond(kernel, cases, impl, 0, 0, func(i int) interface{} { return d[i] })
@@ -845,7 +849,7 @@ func checkC14(c *vh.Ctx) {
 			c.Count("child:ok")
 		}
 		c.Eval()
-		c.Nontrivial(fmt.Sprintf("child:%v:%d", err != nil, minI(n, 7)))
+		c.Nontrivial(fmt.Sprintf("child:%v:%d", err != nil, minICfg(n, 7)))
 		add(cs.driverLine(), im, cs)
 	}
 	flush("config.effective(child)")
